@@ -170,9 +170,21 @@ CHECKS['C19'] = dict(
          'Scope: the multi-buffer SNOW3G/ZUC assembly managers and DES AVX512 assembly are not analysed; compiler-introduced branches are not visible at this level.',
     design='§3 C19', note=TB_ASM + '; taint is flow-insensitive and context-insensitive (over-approximate); output written to caller-supplied buffers is treated as public')
 
+CHECKS['C07'] = dict(
+    technique='static analysis: abstract evaluation of the validation guards over a finite tag-length domain; abstract interpretation of the assembled '
+              'manager routines with a memory-cell constraint domain (comparisons and bit tests of job->auth_tag_output_len_in_bytes) bounding every '
+              'constant-extent store through job->auth_tag_output; AST call-site rule pairing the tag pointer with its length',
+    text='PARTIAL - the property proper is NOT decided: reads and writes of message, key, IV and AAD ranges, placement against unmapped pages, '
+         'source-intact and in-place == out-of-place all quantify over addresses computed from run-time lengths inside hand-written SIMD loops, for '
+         'which no sound static argument is in reach here. Decided is the one clause visible in code shape, "the tag buffer of exactly the requested '
+         'tag length": the accepted tag lengths of every hash algorithm are extracted from the validator of every variant; in every assembled routine '
+         'the hash dispatch reaches, each store of constant extent through a pointer loaded from job->auth_tag_output lies within the smallest accepted '
+         'tag length compatible with the comparisons / bit tests of that job\'s tag-length field which hold at the store on every path; C call sites that '
+         'hand the tag pointer to a callee taking a tag length pass that job\'s tag length. Masked, byte-granular and run-time-indexed tag stores, tag '
+         'stores of cipher-side AEAD routines and of algorithms whose tag guard is conditional are counted, not decided.',
+    design='§3 C07', note=TB_ASM + '; ZUC-256 EIA3 routines are a reasoned exception (one manager per tag size)')
+
 NOT_APPLICABLE = {
-    'C07': 'bounds of SIMD loads/stores relative to run-time lengths need relational numeric invariants over ~850 '
-           'hand-written assembly functions; no sound static argument in reach (no frama-c; CSA/cppcheck do not see NASM)',
     'C10': 'invariance under re-segmentation is an algebraic property of carried partial-block state inside asm/C '
            'arithmetic; no clause of it is visible in code shape',
 }
